@@ -159,7 +159,38 @@ func (w *World) GenOp(ctx sdk.Context, p PoolInfo) Op {
 		case 2:
 			amt, tag = big.NewInt(int64(2+r.Intn(1000))), "swap-small"
 		}
-		return Op{Kind: "swap", Sender: sender, ExactIn: r.Chance(3, 5), DenomIn: r.Intn(2), Amount: amt, Tag: tag}
+		din := r.Intn(2)
+		// land exactly on the next initialised tick: the amount the keeper itself computes for
+		// crossing one (or two) ticks, and its neighbours (swaps ending exactly on a tick)
+		if r.Chance(1, 6) {
+			func() {
+				defer func() { recover() }()
+				maxIn, out, err := w.K.ComputeMaxInAmtGivenMaxTicksCrossed(ctx, p.ID, p.Denoms[din], uint64(1+r.Intn(2)))
+				if err != nil || !maxIn.Amount.IsPositive() {
+					return
+				}
+				exactIn := r.Chance(2, 3)
+				a := maxIn.Amount.BigInt()
+				if !exactIn {
+					a = out.Amount.BigInt()
+				}
+				a = new(big.Int).Add(a, big.NewInt(int64(r.Intn(3)-1)))
+				if a.Sign() > 0 {
+					amt, tag = a, "swap-to-tick"
+					if !exactIn {
+						tag = "swap-to-tick/exact-out"
+					}
+				}
+				_ = exactIn
+			}()
+			if tag == "swap-to-tick" {
+				return Op{Kind: "swap", Sender: sender, ExactIn: true, DenomIn: din, Amount: amt, Tag: tag}
+			}
+			if tag == "swap-to-tick/exact-out" {
+				return Op{Kind: "swap", Sender: sender, ExactIn: false, DenomIn: din, Amount: amt, Tag: tag}
+			}
+		}
+		return Op{Kind: "swap", Sender: sender, ExactIn: r.Chance(3, 5), DenomIn: din, Amount: amt, Tag: tag}
 	case k < 78: // decrease
 		q := poss[r.Intn(len(poss))]
 		owner := w.userIndex(q.Address)
